@@ -38,6 +38,13 @@ def load_spec(prop):
     d = boot.boot()
     mod = importlib.import_module("checks." + prop.lower())
     mod.SRC_DIR = os.path.dirname(d.__file__)
+    from dsim import kernel
+    files = set()
+    for cls in getattr(mod, "CLASSES", {}):
+        for f in mod.TARGET_FILES(cls):
+            files.add(f if os.path.isabs(f) else
+                      os.path.join(mod.SRC_DIR, f))
+    kernel.prewarm_write_lines(files)
     return mod
 
 
